@@ -50,9 +50,11 @@ Init == /\ \E tool \in Tools : \E o \in OptsOf(tool) : st = Init0(tool, o)
         /\ hist = <<>>
 
 \* the bounds of the finite instance
-Within(n) == n.nload <= MaxLoads /\ n.lib.n <= MaxN * MaxLoads
+Works(h) == Len(SelectSeq(h, LAMBDA x : x.ph = "work"))
+Within(n, e) == /\ n.nload <= MaxLoads /\ n.lib.n <= MaxN * MaxLoads
+                /\ (e.ph = "work" /\ n.tool = "paths") => Works(hist) < MaxLoads   \* one search per document
 Take(e) == LET n == Step(st, e)
-           IN n.pc # "REJECT" /\ Within(n) /\ n # st /\ Len(hist) < MaxLen
+           IN n.pc # "REJECT" /\ Within(n, e) /\ n # st /\ Len(hist) < MaxLen
               /\ st' = n /\ hist' = Append(hist, e)
 
 ParseArgs == \E e \in ArgsEv : Take(e)
@@ -85,13 +87,14 @@ InvFailureIsVisible ==
                     /\ st.tool # "diff" => ((st.code = 0) <=> ~Failed(st))     \* (a difference is an answer, not a failure)
 \* no run is stuck (within the bounds of the instance)
 InvProgress ==
-  (st.pc # "Done" /\ Len(hist) < MaxLen) => \E e \in Events : LET n == Step(st, e) IN n.pc # "REJECT" /\ n # st
+  (st.pc # "Done" /\ Len(hist) < MaxLen) => \E e \in Events : LET n == Step(st, e) IN n.pc # "REJECT" /\ n # st /\ Within(n, e)
 \* no event is enabled after Done
 InvDoneIsFinal == st.pc = "Done" => \A e \in Events : Step(st, e).pc = "REJECT"
 
 (* ---- the table for the harness ---- *)
+\* (one row per finished run with file deliveries; the twin runs end in the same state, see above)
 EmitDone ==
-  st.pc = "Done" =>
+  (st.pc = "Done" /\ \A i \in 1..Len(hist) : hist[i].via # "stdin") =>
     CSVWrite("%1$s", <<ToJson([tool |-> st.tool, must |-> st.o.must, mode |-> st.o.mode, noise |-> st.o.noise,
                               argsok |-> st.argsok, valid |-> st.valid, nload |-> st.nload, badat |-> st.badat,
                               k |-> st.lib.k, n |-> st.lib.n, badexpr |-> st.badexpr,
